@@ -29,7 +29,7 @@
    implementation. *)
 From Coq Require Import List ZArith Bool Arith Lia.
 Import ListNotations.
-From QV Require Import Model.C01 Proofs.C01 Proofs.C01_pred Proofs.C01_add Proofs.C01_dia Proofs.C01_reshape Proofs.C01_kron Proofs.C01_matmul.
+From QV Require Import Model.C01 Proofs.C01 Proofs.C01_pred Proofs.C01_add Proofs.C01_dia Proofs.C01_reshape Proofs.C01_kron Proofs.C01_matmul Proofs.C01_inner Proofs.C01_diacsr.
 
 Section Props.
 Variable C : Type.
@@ -339,6 +339,15 @@ Proof.
   - intros d [<-|[<-|[]]]; reflexivity.
 Qed.
 
+(* CSR -> Dia (dia.from_csr): the sorted set of occupied offsets, every stored
+   entry (explicit zeros too, rows in any order) in its slot: no entry
+   changes.  With C01_csr_from_dia_exact all six direct conversions between
+   Dense, CSR and Dia are covered. *)
+Theorem C01_dia_from_csr_exact : forall (C : Type) (c0 : C) (m : csr C) i j, wf_csr C m ->
+  den_dia C c0 (dia_from_csr C c0 m) i j = den_csr C c0 m i j.
+Proof. exact dia_from_csr_den. Qed.
+Print Assumptions C01_dia_from_csr_exact.
+
 (* ------------------------------------------- reshape and column stacking *)
 (* reshape keeps the entry at every linear (row-major) position i*nc + j,
    whatever the relation between old and new column counts (narrower, wider
@@ -522,6 +531,104 @@ Proof.
   split; [intros [a b] [c d] [e f]; unfold gmul; cbn [fst snd]; f_equal; lia|].
   vm_compute. reflexivity.
 Qed.
+
+(* ------------------------------------------------------ inner / expect *)
+Section InnerExpect.
+Variable C : Type.
+Variables (c0 : C) (cadd cmul : C -> C -> C) (cconj : C -> C).
+Hypothesis Hadd0r : forall x, cadd x c0 = x.
+Hypothesis Hadd0l : forall x, cadd c0 x = x.
+Hypothesis Haddc : forall x y, cadd x y = cadd y x.
+Hypothesis Hadda : forall x y z, cadd x (cadd y z) = cadd (cadd x y) z.
+Hypothesis Hmul0r : forall x, cmul x c0 = c0.
+Hypothesis Hmul0l : forall x, cmul c0 x = c0.
+Hypothesis Hconj0 : cconj c0 = c0.
+
+(* inner_csr: <bra|ket> = sum_j bra[0,j] ket[j,0];  <ket|ket> = sum_i
+   conj(left[i,0]) right[i,0];  1x1 operands: left is conjugated iff
+   scalar_is_ket.  Stored order, explicit zeros and empty rows do not matter. *)
+Theorem C01_inner_csr : forall (l r : csr C) flag v,
+  wf_csr C l -> wf_csr C r ->
+  inner_csr C c0 cadd cmul cconj l r flag = Some v ->
+  (s_nr C l = 1 -> s_nc C l = 1 -> s_nr C r = 1 -> s_nc C r = 1 ->
+     v = cmul (if flag then cconj (den_csr C c0 l 0 0) else den_csr C c0 l 0 0)
+              (den_csr C c0 r 0 0)) /\
+  (s_nr C l = 1 -> s_nc C l <> 1 ->
+     v = diag_sum C c0 cadd (fun j => cmul (den_csr C c0 l 0 j) (den_csr C c0 r j 0)) 0 (s_nc C l)) /\
+  (s_nr C l <> 1 -> s_nc C l = 1 ->
+     v = diag_sum C c0 cadd (fun i => cmul (cconj (den_csr C c0 l i 0)) (den_csr C c0 r i 0))
+                  0 (s_nr C l)).
+Proof.
+  intros l r flag v Wl Wr H. split; [|split].
+  - intros. eapply (inner_csr_scalar C c0 cadd cmul cconj); eassumption.
+  - intros. eapply (inner_csr_bra C c0 cadd cmul cconj); eassumption.
+  - intros. eapply (inner_csr_ket C c0 cadd cmul cconj); eassumption.
+Qed.
+
+(* expect_csr on a ket: sum_i conj(s_i) sum_j op[i,j] s_j *)
+Theorem C01_expect_csr_ket : forall (op st : csr C) v,
+  wf_csr C op -> wf_csr C st -> s_nc C st = 1 ->
+  expect_csr C c0 cadd cmul cconj op st = Some v ->
+  v = diag_sum C c0 cadd (fun i => cmul (cconj (den_csr C c0 st i 0))
+        (diag_sum C c0 cadd (fun j => cmul (den_csr C c0 op i j) (den_csr C c0 st j 0)) 0 (s_nr C st)))
+      0 (s_nr C st).
+Proof. exact (expect_csr_ket C c0 cadd cmul cconj Hadd0r Hadd0l Haddc Hadda Hmul0r Hmul0l Hconj0). Qed.
+
+(* expect_csr on a density matrix: tr(op rho) = sum_i sum_j op[i,j] rho[j,i] *)
+Theorem C01_expect_csr_dm : forall (op st : csr C) v,
+  wf_csr C op -> wf_csr C st -> s_nc C st <> 1 ->
+  expect_csr C c0 cadd cmul cconj op st = Some v ->
+  v = diag_sum C c0 cadd (fun i =>
+        diag_sum C c0 cadd (fun j => cmul (den_csr C c0 op i j) (den_csr C c0 st j i)) 0 (s_nr C op))
+      0 (s_nr C op).
+Proof. exact (expect_csr_dm C c0 cadd cmul cconj Hadd0r Hadd0l Haddc Hadda Hmul0r Hmul0l). Qed.
+
+(* expect_super_csr: trace of the unstacked op @ state - rows t(n+1) *)
+Theorem C01_expect_super_csr : forall (op st : csr C) v,
+  wf_csr C op -> wf_csr C st ->
+  expect_super_csr C c0 cadd cmul op st = Some v ->
+  let n := Nat.sqrt (s_nr C st) in
+  v = diag_sum C c0 cadd (fun t =>
+        diag_sum C c0 cadd (fun j => cmul (den_csr C c0 op (t * (n + 1)) j) (den_csr C c0 st j 0))
+                 0 (s_nr C st)) 0 n.
+Proof. exact (expect_super_csr_sum C c0 cadd cmul Hadd0r Hadd0l Haddc Hadda Hmul0r Hmul0l). Qed.
+End InnerExpect.
+Print Assumptions C01_inner_csr.
+Print Assumptions C01_expect_csr_ket.
+Print Assumptions C01_expect_csr_dm.
+Print Assumptions C01_expect_super_csr.
+
+(* The two known findings, on the models of the routes involved.
+   expect_data (used for mixed formats) evaluates a ket through
+   inner(state, op @ state) without scalar_is_ket: a 1x1 state is read as a
+   bra and not conjugated, while expect_csr (theorem above) conjugates it. *)
+Theorem C01_expect_data_scalar_ket_refuted :
+  exists op st : Gcsr, wf_csr G op /\ wf_csr G st /\
+    G_expect_via_inner op st <> G_expect_csr op st.
+Proof.
+  exists (G_csr_of_raw 1 1 [0; 1] [0] [(2, 2)]%Z), (G_csr_of_raw 1 1 [0; 1] [0] [(-3, -2)]%Z).
+  split; [|split].
+  - split; [reflexivity|]. intros row [<-|[]]. split; [repeat constructor; intros []|].
+    intros p [<-|[]]. simpl. lia.
+  - split; [reflexivity|]. intros row [<-|[]]. split; [repeat constructor; intros []|].
+    intros p [<-|[]]. simpl. lia.
+  - vm_compute. intro H. discriminate H.
+Qed.
+Print Assumptions C01_expect_data_scalar_ket_refuted.
+
+(* inner_op with a 1x1 left operand, a 1xN op and scalar_is_ket=True:
+   inner_op_csr treats left as a bra (as documented); the Dense / Dia / Data
+   specialisations compute inner(left, op @ right, flag) and conjugate it *)
+Theorem C01_inner_op_scalar_is_ket_refuted :
+  exists l op r : Gcsr,
+    G_inner_op_via_product l op r true <> G_inner_op_csr l op r true.
+Proof.
+  exists (G_csr_of_raw 1 1 [0; 1] [0] [(0, 1)]%Z),
+         (G_csr_of_raw 1 2 [0; 1] [0] [(1, 0)]%Z),
+         (G_csr_of_raw 2 1 [0; 1; 1] [0] [(1, 0)]%Z).
+  vm_compute. intro H. discriminate H.
+Qed.
+Print Assumptions C01_inner_op_scalar_is_ket_refuted.
 
 (* ----------------------------------------------------------- dispatcher *)
 (* V = data-layer objects, ty = their concrete type, den = the matrix they
